@@ -42,22 +42,50 @@ pub struct Case {
     /// not asserted); the negotiation of the next connection must not depend on it
     #[serde(default)]
     pub prior: Option<NegReply>,
+    /// a second negotiation structure inside the same connection confirm (lengths adjusted): e.g. an echoed request
+    /// followed by a response. Such a confirm is malformed whatever the two structures say
+    #[serde(default)]
+    pub second: Option<NegReply>,
 }
 
 pub fn run(c: &Case) -> Outcome {
     let mut out = Outcome::new();
     let built = wire::connection_confirm(&c.reply);
-    let bytes = match &c.fault {
+    let mut bytes = match &c.fault {
         Some(k) => apply_fault(&built, k).0,
         None => built.bytes.clone(),
     };
+    if let (Some(sec), None) = (&c.second, &c.fault) {
+        out.label("two-structures");
+        let other = wire::connection_confirm(sec).bytes;
+        if other.len() >= 19 && bytes.len() >= 11 {
+            let extra = other[other.len() - 8..].to_vec();
+            bytes.extend_from_slice(&extra);
+            let l = bytes.len();
+            bytes[2] = (l >> 8) as u8;
+            bytes[3] = l as u8;
+            bytes[4] = (l - 5) as u8;
+        }
+    }
     let offered: u32 = match &c.entry {
         Entry::Connector { nla, .. } => 1 | if *nla { 2 } else { 0 },
         Entry::X224 { mask, .. } => *mask as u32,
     };
     // is the (possibly faulted) reply still a well-formed RDP_NEG_RSP? decide by parsing the bytes actually sent
-    let selected = parse_rsp(&bytes);
-    let acceptable = matches!(selected, Some(s) if (s == 1 || s == 2) && s & offered != 0);
+    let mut selected = parse_rsp(&bytes);
+    let mut acceptable = matches!(selected, Some(s) if (s == 1 || s == 2) && s & offered != 0);
+    if c.second.is_some() && c.fault.is_none() {
+        // two structures in one confirm: refusing is always fine; going on is tolerable only with TLS and only if one of the two
+        // is a response selecting an offered TLS protocol (which of them a client looks at is its business)
+        let sel_of = |r: &NegReply| match r {
+            NegReply::Response { selected, .. } => Some(*selected),
+            NegReply::Other { typ: 2, length: 8, value, .. } => Some(*value),
+            _ => None,
+        };
+        let sels: Vec<u32> = [sel_of(&c.reply), c.second.as_ref().and_then(sel_of)].iter().flatten().copied().collect();
+        acceptable = sels.iter().any(|s| (*s == 1 || *s == 2) && s & offered != 0);
+        selected = sels.first().copied();
+    }
     let downgrade = matches!(selected, Some(s) if !acceptable && (s == 0 || s == 1 || s == 2 || s == 8 || s & offered == 0));
     out.nontrivial(downgrade);
     out.label(match &c.entry {
@@ -172,32 +200,50 @@ fn sweep(part: usize, parts: usize) -> impl Iterator<Item = Case> {
     }
     for e in entries() {
         for s in &sels {
-            v.push(Case { entry: e.clone(), reply: NegReply::Response { flags: 0, selected: *s }, fault: None, prior: None });
+            v.push(Case { entry: e.clone(), reply: NegReply::Response { flags: 0, selected: *s }, fault: None, prior: None, second: None });
         }
         for f in 0..=255u8 {
             for s in [0u32, 1, 2, 3] {
-                v.push(Case { entry: e.clone(), reply: NegReply::Response { flags: f, selected: s }, fault: None, prior: None });
+                v.push(Case { entry: e.clone(), reply: NegReply::Response { flags: f, selected: s }, fault: None, prior: None, second: None });
             }
         }
         for code in [0u32, 1, 2, 3, 4, 5, 6, 0xFFFF_FFFF] {
-            v.push(Case { entry: e.clone(), reply: NegReply::Failure { flags: 0, code }, fault: None, prior: None });
+            v.push(Case { entry: e.clone(), reply: NegReply::Failure { flags: 0, code }, fault: None, prior: None, second: None });
         }
         for typ in 0..=255u8 {
             for val in [0u32, 1, 2, 3] {
-                v.push(Case { entry: e.clone(), reply: NegReply::Other { typ, flags: 0, length: 8, value: val }, fault: None, prior: None });
+                v.push(Case { entry: e.clone(), reply: NegReply::Other { typ, flags: 0, length: 8, value: val }, fault: None, prior: None, second: None });
             }
         }
         for len in [0u16, 4, 7, 9, 16, 0xFFFF] {
-            v.push(Case { entry: e.clone(), reply: NegReply::Other { typ: 2, flags: 0, length: len, value: 1 }, fault: None, prior: None });
+            v.push(Case { entry: e.clone(), reply: NegReply::Other { typ: 2, flags: 0, length: len, value: 1 }, fault: None, prior: None, second: None });
         }
-        v.push(Case { entry: e.clone(), reply: NegReply::Absent, fault: None, prior: None });
+        v.push(Case { entry: e.clone(), reply: NegReply::Absent, fault: None, prior: None, second: None });
         for sel in [0u32, 1, 2] {
             let full = wire::connection_confirm(&NegReply::Response { flags: 0, selected: sel }).bytes.len();
             for t in 0..full {
-                v.push(Case { entry: e.clone(), reply: NegReply::Response { flags: 0, selected: sel }, fault: Some(FaultKind::Truncate(t as u16)), prior: None });
+                v.push(Case { entry: e.clone(), reply: NegReply::Response { flags: 0, selected: sel }, fault: Some(FaultKind::Truncate(t as u16)), prior: None, second: None });
             }
             for ext in [vec![0u8], vec![1, 2, 3, 4], vec![3, 0, 0, 7, 2, 0xF0, 0x80]] {
-                v.push(Case { entry: e.clone(), reply: NegReply::Response { flags: 0, selected: sel }, fault: Some(FaultKind::Extend(ext)), prior: None });
+                v.push(Case { entry: e.clone(), reply: NegReply::Response { flags: 0, selected: sel }, fault: Some(FaultKind::Extend(ext)), prior: None, second: None });
+            }
+        }
+    }
+    // two negotiation structures in one confirm: every pair of {request echo, response, failure} x small values
+    for e in entries() {
+        let structs: Vec<NegReply> = vec![
+            NegReply::Other { typ: 1, flags: 0, length: 8, value: 0 },
+            NegReply::Other { typ: 1, flags: 0, length: 8, value: 1 },
+            NegReply::Other { typ: 1, flags: 0, length: 8, value: 3 },
+            NegReply::Other { typ: 1, flags: 0, length: 8, value: 0xB },
+            NegReply::Response { flags: 0, selected: 0 },
+            NegReply::Response { flags: 0, selected: 1 },
+            NegReply::Response { flags: 0, selected: 2 },
+            NegReply::Failure { flags: 0, code: 5 },
+        ];
+        for a in &structs {
+            for b in &structs {
+                v.push(Case { entry: e.clone(), reply: a.clone(), fault: None, prior: None, second: Some(b.clone()) });
             }
         }
     }
@@ -210,7 +256,7 @@ fn sweep(part: usize, parts: usize) -> impl Iterator<Item = Case> {
         priors.extend([NegReply::Absent, NegReply::Response { flags: 0, selected: 0 }, NegReply::Response { flags: 0, selected: 1 }, NegReply::Response { flags: 0, selected: 2 }, NegReply::Response { flags: 0, selected: 8 }]);
         for p in priors {
             for reply in [NegReply::Response { flags: 0, selected: 0 }, NegReply::Response { flags: 0, selected: 1 }, NegReply::Response { flags: 0, selected: 2 }, NegReply::Response { flags: 0, selected: 3 }, NegReply::Response { flags: 0, selected: 8 }, NegReply::Absent, NegReply::Failure { flags: 0, code: 1 }] {
-                v.push(Case { entry: e.clone(), reply, fault: None, prior: Some(p.clone()) });
+                v.push(Case { entry: e.clone(), reply, fault: None, prior: Some(p.clone()), second: None });
             }
         }
     }
@@ -236,7 +282,18 @@ pub fn decode(s: &mut Src) -> Case {
     } else {
         None
     };
-    Case { entry, reply, fault, prior }
+    let second = if s.chance(24) {
+        Some(match s.below(3) {
+            0 => NegReply::Response { flags: 0, selected: s.pick(&[0u32, 1, 2, 3, 8]) },
+            1 => NegReply::Failure { flags: 0, code: s.below(8) as u32 },
+            _ => NegReply::Other { typ: s.pick(&[1u8, 2, 3, 0]), flags: 0, length: 8, value: s.pick(&[0u32, 1, 2, 3]) },
+        })
+    } else {
+        None
+    };
+    // (a byte fault on top of a second structure would leave the reference classification undefined)
+    let fault = if second.is_some() { None } else { fault };
+    Case { entry, reply, fault, prior, second }
 }
 
 // ---- TLS sub-lane -------------------------------------------------------------------------
